@@ -32,6 +32,7 @@ C = {
              note="uninterpreted steps; helpers on integer / list inputs only; division compared as IEEE quotient", tech="TLA+ term algebra + helper table checked by TLC; every generated case replayed into real pipelines", ref="5 C13"),
  "C19": dict(text="Dataset classes as named member collections of the expression machine: attributes, class-level keys/validate/explain (union over members incl. an inherited one from a parent dataset class that was used first), equality over ALL pairs of dictionaries iff the specification's restricted options are equal, repr shows every reported key with its value.", ref="5 C19"),
  "C20": dict(text="Graphs built from importable callables pickled with every protocol (cold and warm caches) in-process and into a freshly started interpreter: outcomes and keys of the copy equal a fresh original's for every dictionary of the family; further register()+evaluate works on the copy. One open known finding (decorator form).", ref="5 C20"),
+ "C18": dict(text="Reflection over the package's concrete Evaluatable / Effect classes (unknown class = machinery failure; every operation must be a request-issuing wrapper) and, on families combinators + caching, pass-through handlers for each of the nine request types alone and together: results unchanged, the root and every node of the specification's Visit set observed, side requests observed at the nodes that issue them, a substituting EvaluateRequest handler equals the graph with the node replaced.", ref="5 C18"),
  "C02": dict(text="Body/effect execution counters against the specification's demand analysis (Permit): one run per distinct demand, none on exact repeat / unmentioned keys / permuted key order; effects only after their body.", ref="5 C02"),
 }
 checks = []
